@@ -145,7 +145,18 @@ pub fn cases(max_cmds: usize) -> impl Strategy<Value = Case> {
         }),
         4..40,
     );
-    (proggen::prog_spec(24), prop_oneof![3 => mixed, 2 => steppy], input_bytes()).prop_map(|(spec, cmds, input)| Case { spec, cmds, input })
+    // breakpoint-churn histories: many add/remove over a handful of addresses (so that the same
+    // address is added, removed and re-added), interleaved with resuming commands
+    let churn = prop::collection::vec(
+        (prop::sample::select(vec![11u8, 11, 11, 11, 14, 14, 14, 8, 8, 0, 3]), raw_cmd()).prop_map(|(k, mut r)| {
+            r.kind = k;
+            r.a = 0; // absolute address form
+            r.b = (r.b % 7) * 4000; // a handful of distinct code addresses
+            r
+        }),
+        6..24,
+    );
+    (proggen::prog_spec(24), prop_oneof![3 => mixed, 2 => steppy, 1 => churn], input_bytes()).prop_map(|(spec, cmds, input)| Case { spec, cmds, input })
 }
 
 impl Prop for C10 {
@@ -153,7 +164,7 @@ impl Prop for C10 {
         "C10"
     }
     fn rule(&self) -> &'static str {
-        "Histories of 1-12 mixed commands (and step-heavy histories of 4-39 commands) over {step, step into k (k absent, 0, 1, 2, 3, 7, 100, 65535, small), step out, continue, break add/remove at code addresses / labels / PC offsets} on ProgGen programs (loops, nested and recursive subroutines in both conventions, HALT in the middle or at the end, both feature settings), each command followed by `registers`, ended by `exit`. \
+        "Histories of 1-12 mixed commands (step-heavy histories of 4-39 commands, and breakpoint-churn histories of 6-23 commands over a handful of addresses) over {step, step into k (k absent, 0, 1, 2, 3, 7, 100, 65535, small), step out, continue, break add/remove at code addresses / labels / PC offsets} on ProgGen programs (loops, nested and recursive subroutines in both conventions, HALT in the middle or at the end, both feature settings), each command followed by `registers`, ended by `exit`. \
          Oracle: RefDbg on RefVM — after every command R0-R7, PC and CC; after the history the full snapshot (all memory), the number of executed instructions (hook H4) and the program output. `step` over a call whose two readings (first arrival at the following address / the call has returned) disagree cuts the history there (counted as ambiguous). \
          Non-trivial: >= 5 instructions executed in >= 2 resuming commands, including a step over a call, a step on a taken branch / JMP / RET, a step into that is cut short by a pause, or a step out. Distinct = hash(source, script, input)."
     }
